@@ -444,12 +444,17 @@ func TestVerif_Forced(t *testing.T) {
 // which a stale root can be published shows as a counter that went back.
 func TestVerif_DisjointThroughput(t *testing.T) {
 	r := vkit.Start(t, "C05", "disjoint-throughput", "exploration", "32 tables, one writer goroutine per table incrementing its own counter in back-to-back transactions (every commit passes the root lock), "+
-		"while one goroutine registers further tables and one commits write transactions with an empty table set; each transaction must read exactly the counter its writer committed last and the revision it left; "+
+		"while one goroutine registers further tables and one commits write transactions with an empty table set; every third run instead: one writer holding both tables of a two-table database against three empty-set committers and occasional registrations; "+
+		"each transaction must read exactly the counter its writer committed last and the revision it left; "+
 		"non-trivial = all writers committed; distinct = (seed, run)")
 	r.Require("commits")
 	runs := vkit.N(3, 60)
 	per := 10000
 	r.ParallelCases(runs, 1, func(idx int) {
+		if idx%3 == 2 {
+			allTablesRun(r, idx, per*8)
+			return
+		}
 		db := statedb.New()
 		const nt = 32
 		tabs := concw.NewTables(db, "d", nt)
@@ -518,6 +523,61 @@ func TestVerif_DisjointThroughput(t *testing.T) {
 		r.Case(uint64(idx), commits.Load() == int64(nt*per))
 	})
 	r.Finish()
+}
+
+// allTablesRun: one writer that holds EVERY table of the database (two tables) commits back to back while other goroutines
+// commit write transactions with an empty table set and, now and then, register a table: the only other parties that publish a
+// root. Holding all table locks excludes neither of them.
+func allTablesRun(r *vkit.Run, idx int, n int) {
+	db := statedb.New()
+	tabs := concw.NewTables(db, "a", 2)
+	var stop atomic.Bool
+	var bg sync.WaitGroup
+	var empties, registered atomic.Int64
+	for g := 0; g < 3; g++ {
+		bg.Add(1)
+		go func() {
+			defer bg.Done()
+			for !stop.Load() {
+				db.WriteTxn().Commit()
+				empties.Add(1)
+			}
+		}()
+	}
+	var last int64
+	var lastRev uint64
+	commits := 0
+	bad := false
+	for k := 0; k < n && !bad; k++ {
+		if k%(n/6+1) == n/12 {
+			// (from here on the writer no longer holds every table; the next round starts over with a fresh database)
+			if _, err := statedb.NewTable(db, fmt.Sprintf("late%d", k), concw.IDIndex); err != nil {
+				r.Violation("newtable-error/throughput", idx, map[string]any{"message": err.Error()})
+				break
+			}
+			registered.Add(1)
+		}
+		w := db.WriteTxn(tabs[0], tabs[1])
+		got, rev := concw.Get(w, tabs[0], "seq"), tabs[0].Revision(w)
+		if got != last || rev != lastRev || concw.Get(w, tabs[1], "seq") != last {
+			r.Violation("lost-write/throughput", idx, map[string]any{"message": fmt.Sprintf("all-tables writer: transaction %d starts from seq=%d/%d revision=%d, it committed seq=%d revision=%d before (empty-set commits so far: %d)", k, got, concw.Get(w, tabs[1], "seq"), rev, last, lastRev, empties.Load())})
+			w.Abort()
+			bad = true
+			break
+		}
+		tabs[0].Insert(w, &concw.Row{ID: "seq", V: got + 1})
+		tabs[1].Insert(w, &concw.Row{ID: "seq", V: got + 1})
+		lastRev = tabs[0].Revision(w)
+		w.Commit()
+		last = got + 1
+		commits++
+	}
+	stop.Store(true)
+	bg.Wait()
+	r.Count("commits", int64(commits))
+	r.Count("empty_set_commits", empties.Load())
+	r.Count("tables_registered_during_run", registered.Load())
+	r.Case(uint64(idx), commits == n)
 }
 
 // ---- stress ----
